@@ -348,7 +348,11 @@ func (f Union) locate(pp Expr, data any, rest Expr, max int) (locs []Expr) {
 					has = true
 				}
 			default:
-				v, has = reflectGetNth(td, i)
+				if v, has = reflectGetNth(td, i); has && i < 0 {
+					if rv := reflect.ValueOf(td); rv.Kind() == reflect.Slice || rv.Kind() == reflect.Array {
+						i += rv.Len() // normalize
+					}
+				}
 			}
 			lf = Nth(i)
 		}
